@@ -4,6 +4,8 @@ import (
 	"flag"
 	"fmt"
 	"os"
+	"runtime/debug"
+	"runtime/pprof"
 	"sort"
 	"strconv"
 	"strings"
@@ -18,6 +20,7 @@ func envOr(k, d string) string {
 }
 
 func main() {
+	debug.SetGCPercent(400)
 	if len(os.Args) < 2 {
 		fmt.Fprintln(os.Stderr, "usage: gosym explore|check|replay|selftest ...")
 		os.Exit(2)
@@ -27,6 +30,10 @@ func main() {
 		cmdExplore(os.Args[2:])
 	case "check":
 		os.Exit(cmdCheck(os.Args[2:]))
+	case "replay":
+		os.Exit(cmdReplay(os.Args[2:]))
+	case "version":
+		fmt.Println("gosym: symbolic executor for go/ssa (x/tools v0.29.0) + SMT")
 	default:
 		fmt.Fprintln(os.Stderr, "unknown command", os.Args[1])
 		os.Exit(2)
@@ -58,6 +65,7 @@ func cmdExplore(argv []string) {
 	noIf := fs.Bool("noifconv", false, "disable if-conversion")
 	solver := fs.String("solver", "z3", "z3 | z3-new | cvc5")
 	verbose := fs.Bool("v", false, "verbose")
+	cpuprof := fs.String("cpuprofile", "", "write cpu profile")
 	fs.Parse(argv)
 	t0 := time.Now()
 	e, err := loadEngine(envOr("VERIF_REPO", "/repo"), envOr("VERIF_HARNESS", "/verif/harness"), nil, nil)
@@ -74,6 +82,11 @@ func cmdExplore(argv []string) {
 		os.Exit(2)
 	}
 	h := &HarnessRun{Name: *harness, Fn: fn, Args: parseArgs(*args), Budget: *budget, SampleK: 50, MaxPaths: *maxPaths}
+	if *cpuprof != "" {
+		f, _ := os.Create(*cpuprof)
+		pprof.StartCPUProfile(f)
+		defer pprof.StopCPUProfile()
+	}
 	st := e.explore(h, *workers)
 	printStats(st, *verbose)
 }
@@ -110,6 +123,8 @@ func showInputs(ins []ReplayInput) string {
 	var parts []string
 	for _, in := range ins {
 		switch in.Kind {
+		case "tok":
+			parts = append(parts, in.Text)
 		case "bytes":
 			b := make([]byte, len(in.Val))
 			for i, v := range in.Val {
